@@ -9,7 +9,8 @@ import (
 // Go reference of Spec.Ops (the documented results), written against the
 // statement of the property and docs/operators.md, not against the node
 // implementations and not against the Lean model. ok=false: outside the
-// documented domain.
+// documented domain. Comparisons of operands of different kinds follow the PHP-8
+// table in its "convert the pair, then compare like with like" form (refConv).
 
 func isNum(v V) bool { return v.K == "i" || v.K == "f" }
 
@@ -46,13 +47,18 @@ func goToInt(f float64) int64 { return int64(f) }
 
 func strLess(a, b string) bool { return a < b }
 
-func refOrder(a, b V) (lt, le bool, ok bool) {
+// same-kind (and int/float) rules
+func baseOrder(a, b V) (lt, le bool, ok bool) {
 	switch {
 	case a.K == "i" && b.K == "i":
 		return a.I < b.I, a.I <= b.I, true
 	case a.K == "s" && b.K == "s":
 		x, y := a.Str(), b.Str()
 		return strLess(x, y), !strLess(y, x), true
+	case a.K == "b" && b.K == "b":
+		return !a.B && b.B, !a.B || b.B, true // false < true
+	case a.K == "n" && b.K == "n":
+		return false, true, true
 	case isNum(a) && isNum(b):
 		x, y := toF(a), toF(b)
 		return x < y, x <= y, true
@@ -60,7 +66,7 @@ func refOrder(a, b V) (lt, le bool, ok bool) {
 	return false, false, false
 }
 
-func refLooseEq(a, b V) (bool, bool) {
+func baseEq(a, b V) (bool, bool) {
 	switch {
 	case a.K == "i" && b.K == "i":
 		return a.I == b.I, true
@@ -74,6 +80,55 @@ func refLooseEq(a, b V) (bool, bool) {
 		return toF(a) == toF(b), true
 	}
 	return false, false
+}
+
+// number n against string s (PHP 8): a numeric string is read as a number — an
+// integer when n is one and s is written as one — any other string is compared
+// with the number written as a string.
+func convNumStr(n V, s string) (V, V) {
+	if n.K == "i" {
+		if k, err := strconv.Atoi(s); err == nil {
+			return n, vi(int64(k))
+		}
+	}
+	if f, err := strconv.ParseFloat(s, 64); err == nil {
+		return n, vf(f)
+	}
+	if n.K == "i" {
+		return vs(strconv.FormatInt(n.I, 10)), vs(s)
+	}
+	return vs(strconv.FormatFloat(n.Float(), 'g', 14, 64)), vs(s)
+}
+
+// refConv: the PHP-8 conversion of an operand pair before a loose comparison:
+// null/bool against anything → booleans (null against a string → ""), number
+// against string → see convNumStr, everything else unchanged.
+func refConv(a, b V) (V, V) {
+	nb := func(v V) bool { return v.K == "n" || v.K == "b" }
+	switch {
+	case a.K == "n" && b.K == "s":
+		return vs(""), b
+	case a.K == "s" && b.K == "n":
+		return a, vs("")
+	case isNum(a) && b.K == "s":
+		return convNumStr(a, b.Str())
+	case a.K == "s" && isNum(b):
+		y, x := convNumStr(b, a.Str())
+		return x, y
+	case nb(a) || nb(b):
+		return vb(refTruthy(a)), vb(refTruthy(b))
+	}
+	return a, b
+}
+
+func refOrder(a, b V) (lt, le bool, ok bool) {
+	x, y := refConv(a, b)
+	return baseOrder(x, y)
+}
+
+func refLooseEq(a, b V) (bool, bool) {
+	x, y := refConv(a, b)
+	return baseEq(x, y)
 }
 
 func refStrictEq(a, b V) (bool, bool) {
